@@ -376,8 +376,8 @@ pub fn check_pair(p: &Pair, log: &mut CaseLog) -> Verdict {
     let opts = AsmOptions::default();
     let r = guarded(|| {
         (
-            assemble(&pair_project(&ta), opts),
-            assemble(&pair_project(&tb), opts),
+            assemble(&pair_project(&ta), opts.clone()),
+            assemble(&pair_project(&tb), opts.clone()),
             assemble(&pair_project(&both), opts),
         )
     });
